@@ -150,7 +150,7 @@ pub fn cmd_catch(interp: &mut Interp, _: ContextID, argv: &[Value]) -> MoltResul
     // If the script called `return x`, should get Return, -level 1, -code Okay here
     let result = interp.eval_value(&argv[1]);
 
-    let (code, value) = match &result {
+    let (code, value): (MoltInt, Value) = match &result {
         Ok(val) => (0, val.clone()),
         Err(exception) => match exception.code() {
             ResultCode::Okay => unreachable!(), // Should not be reachable here.
@@ -158,7 +158,7 @@ pub fn cmd_catch(interp: &mut Interp, _: ContextID, argv: &[Value]) -> MoltResul
             ResultCode::Return => (2, exception.value()),
             ResultCode::Break => (3, exception.value()),
             ResultCode::Continue => (4, exception.value()),
-            ResultCode::Other(_) => unimplemented!(), // TODO: Not in use yet
+            ResultCode::Other(num) => (num, exception.value()),
         },
     };
 
